@@ -114,7 +114,8 @@ inductive Cb
 inductive MOp
   -- publish_signal / _deliver_local
   | snapLocal (k : Key) (p : Pub)                       -- L: snapshot of the receiver set
-  | deliver (rs : List Rcv) (k : Key) (p : Pub)         -- R: one `receiver._receive_signal`, remaining receivers `rs`
+  | deliver (sid : Nat) (rs : List Rcv) (k : Key) (p : Pub)  -- R: one `receiver._receive_signal`; `rs` = receivers still to do,
+                                                        --    `sid` = (ghost) index of the snapshot in `State.snaps`
   | snapRemote (ob : Obj) (sg : Sg) (p : Pub)           -- L: snapshot of the remote subscriber set
   | pubSend (ps : List Peer) (ob : Obj) (sg : Sg) (p : Pub)  -- S: `has_peer_context` for the chosen subscriber
   -- generic send of one message: MessageRouter.send_message
@@ -171,6 +172,7 @@ def Th.ctx : Th → Ctx
 structure Item where
   k : Key
   p : Pub
+  sid : Nat            -- ghost: index in `State.snaps` of the snapshot this delivery came from
   deriving DecidableEq, Repr
 
 structure CtxSt where
@@ -322,19 +324,20 @@ def handleReplyStep (cs : CtxSt) (id : ReqId) (ok : Bool) : Option (CtxSt × Lis
     match cs.pobj pid with
     | none => none
     | some po =>
-      let cs1 := { cs with byId := upd cs.byId id none, byKey := upd cs.byKey po.key none }
-      let cs2 := if po.sub && ok then { cs1 with lsubs := upd cs1.lsubs po.key (uni (cs1.lsubs po.key) po.rcvs) } else cs1
       if po.sub then
-        some ({ cs2 with pobj := upd cs2.pobj pid (some { po with done := some ok }) }, [], .tau "reply")
+        -- a subscribe request completed: on success the waiting receivers become local subscribers; wake the waiters
+        some ({ cs with byId := upd cs.byId id none, byKey := upd cs.byKey po.key none,
+                        lsubs := if ok then upd cs.lsubs po.key (uni (cs.lsubs po.key) po.rcvs) else cs.lsubs,
+                        pobj := upd cs.pobj pid (some { po with done := some ok }) }, [], .tau "reply")
       else if po.rcvs ≠ [] then
-        let id' := cs2.nextReq
-        some ({ cs2 with pobj := upd cs2.pobj pid (some { po with sub := true }),
-                         byKey := upd cs2.byKey po.key (some pid),
-                         byId := upd cs2.byId id' (some pid),
-                         nextReq := id' + 1 },
-              [.sendChk po.key.pc (.subReq id' po.key.ob po.key.sg true)], .req "resub" id')
+        -- an unsubscribe request completed while new subscribers are waiting: send a new subscribe request at once
+        some ({ cs with byId := upd (upd cs.byId id none) cs.nextReq (some pid),
+                        byKey := upd cs.byKey po.key (some pid),
+                        pobj := upd cs.pobj pid (some { po with sub := true }),
+                        nextReq := cs.nextReq + 1 },
+              [.sendChk po.key.pc (.subReq cs.nextReq po.key.ob po.key.sg true)], .req "resub" cs.nextReq)
       else
-        some (cs2, [], .tau "reply")
+        some ({ cs with byId := upd cs.byId id none, byKey := upd cs.byKey po.key none }, [], .tau "reply")
 
 /-- `handle_peer_context_removed` under the lock -/
 def peerRemovedStep (cs : CtxSt) (n : Peer) : CtxSt :=
@@ -383,13 +386,13 @@ def microStep (s : State) (th : Th) (choice choice2 : Nat) (op : MOp) (rest : Li
   match op with
   | .snapLocal k p =>
     let rs := cs.lsubs k
-    some ({ (s.setProg th (if rs = [] then rest else .deliver rs k p :: rest)) with
+    some ({ (s.setProg th (if rs = [] then rest else .deliver s.snaps.length rs k p :: rest)) with
               snaps := s.snaps ++ [⟨c, k, p, rs⟩] }, .snap "local" rs)
-  | .deliver rs k p =>
+  | .deliver sid rs k p =>
     if choice ∈ rs then
       let rs' := rs.erase choice
-      fin { cs with got := upd cs.got choice (cs.got choice ++ [⟨k, p⟩]) }
-          (if rs' = [] then rest else .deliver rs' k p :: rest) (.dlv choice k p)
+      fin { cs with got := upd cs.got choice (cs.got choice ++ [⟨k, p, sid⟩]) }
+          (if rs' = [] then rest else .deliver sid rs' k p :: rest) (.dlv choice k p)
     else none
   | .snapRemote ob sg p =>
     let ps := cs.rsubs ⟨ob, sg⟩
